@@ -14,42 +14,6 @@ func init() {
 	verifHarnesses["HarnessC16TCPBad"] = HarnessC16TCPBad
 }
 
-// c16Frame builds a well-formed frame with symbolic fields; kind selects the service type.
-func c16Frame(kind int) (ServicePackable, []byte) {
-	var v ServicePackable
-	switch kind % 5 {
-	case 4:
-		v = &TunnelReq{Channel: nondetU8(), SeqNumber: nondetU8(), Payload: c02Cemi(9, 0, 3)} // L_Busmon.ind
-	case 0:
-		v = &TunnelRes{Channel: nondetU8(), SeqNumber: nondetU8(), Status: ErrCode(nondetU8())}
-	case 1:
-		v = &ConnStateRes{Channel: nondetU8(), Status: ErrCode(nondetU8())}
-	case 2:
-		v = &DiscReq{Channel: nondetU8(), Status: nondetU8(), Control: c02HostInfo()}
-	default:
-		v = &TunnelReq{Channel: nondetU8(), SeqNumber: nondetU8(), Payload: c02Cemi(2, 0, 2)}
-	}
-	return v, AllocAndPack(v)
-}
-
-func c16Same(want ServicePackable, got Service) bool {
-	switch x := want.(type) {
-	case *TunnelRes:
-		y, ok := got.(*TunnelRes)
-		return ok && *x == *y
-	case *ConnStateRes:
-		y, ok := got.(*ConnStateRes)
-		return ok && *x == *y
-	case *DiscReq:
-		y, ok := got.(*DiscReq)
-		return ok && *x == *y
-	case *TunnelReq:
-		y, ok := got.(*TunnelReq)
-		return ok && x.Channel == y.Channel && x.SeqNumber == y.SeqNumber && c02CemiEqual(x.Payload, y.Payload)
-	}
-	return false
-}
-
 // HarnessC16TCP: a = {frames F, first kind, cut budget, dribble}: a stream of F well-formed frames
 // delivered through Read calls that return arbitrary segments; each frame surfaces exactly once,
 // in order; after the peer closed, Inbound is closed and the receiver has returned.
@@ -201,7 +165,7 @@ func (c *c16YieldConn) Write(b []byte) (int, error) {
 func HarnessC16ConcurrentSend(a []int) {
 	n := a[0]
 	conn := &c16YieldConn{}
-	sock := &TunnelSocket{conn: conn}
+	sock := &TunnelSocket{conn, nil}
 	var want [][]byte
 	var vals []ServicePackable
 	for i := 0; i < n; i++ {
@@ -270,7 +234,7 @@ func HarnessC16Close(a []int) {
 	var sock Socket
 	if udp {
 		conn := &net.UDPConn{}
-		sock = &RouterSocket{conn: conn, inbound: inbound}
+		sock = &RouterSocket{conn, nil, inbound}
 		go func() {
 			serveUDPSocket(conn, nil, inbound)
 			returned = true
@@ -278,7 +242,7 @@ func HarnessC16Close(a []int) {
 	} else {
 		verifStream(stream, 0, 0)
 		conn := &net.TCPConn{}
-		sock = &TunnelSocket{conn: conn, inbound: inbound}
+		sock = &TunnelSocket{conn, inbound}
 		go func() {
 			serveTCPSocket(conn, nil, inbound)
 			returned = true
@@ -317,7 +281,7 @@ func HarnessC16Close(a []int) {
 // header-total-length bytes to the network.
 func HarnessC15SendRouter(a []int) {
 	v := c15Value(a)
-	sock := &RouterSocket{conn: &net.UDPConn{}, addr: &net.UDPAddr{Port: 3671}}
+	sock := &RouterSocket{&net.UDPConn{}, &net.UDPAddr{Port: 3671}, nil}
 	err := sock.Send(v)
 	verifAssert("C15.send.ok", err == nil)
 	verifAssert("C15.send.one_write", verifNetWrites() == 1)
